@@ -23,7 +23,7 @@ theorem stopOne_outs (st : State) (sid oid : Nat) : (stopOne st sid oid).2 = sto
   unfold stopOne stopOuts
   cases st.obj oid with
   | none => rfl
-  | some s => cases hk : s.kind <;> simp only [hk] <;> (try split) <;> rfl
+  | some s => cases hk : s.kind <;> simp only [hk] <;> (repeat' split) <;> simp_all
 
 theorem stopOne_table (st : State) (sid oid : Nat) : (stopOne st sid oid).1.table = st.table.filter (·.1 != sid) := by
   unfold stopOne
@@ -31,7 +31,7 @@ theorem stopOne_table (st : State) (sid oid : Nat) : (stopOne st sid oid).1.tabl
 
 theorem stopOne_obj_ne (st : State) (sid oid j : Nat) (h : j ≠ oid) : (stopOne st sid oid).1.obj j = st.obj j := by
   unfold stopOne
-  (repeat' split) <;> simp [finish_obj, obj_setObj_ne _ _ _ _ h]
+  (repeat' split) <;> simp [finish_obj, unregister_obj, obj_setObj_ne _ _ _ _ h]
 
 theorem stopOne_closed (st : State) (sid oid : Nat) : (stopOne st sid oid).1.closed = st.closed := by
   unfold stopOne
